@@ -657,6 +657,9 @@ func (e *Engine) intrinsic(name string, fn *ssa.Function, args []Value) (Value, 
 	case "vOnWait":
 		e.wgHook = args[0].(FuncV)
 		return nil, true
+	case "vOnTick":
+		e.tickHook = args[0].(FuncV)
+		return nil, true
 	case "vBreakSignal": // closes the interrupter channel of a breaker.Breaker (what Break() does before it waits)
 		l := unwrapAny(args[0]).(PtrV).L
 		find := func(l *Loc, name string) *Loc {
